@@ -15,7 +15,10 @@ for d in sorted(glob.glob(os.path.join(HERE, "seeded", "*"))):
     first = m.get("first_run", "")
     if first.startswith("detected by the registered check as it stood") or "as the checks stood when the change arrived" in first:
         n_first_ok += 1
-    rows.append(f"| {os.path.basename(d)} | {title[:120]} | {', '.join(m.get('detected_by') or []) or '-'} | {first} |")
+    det = ', '.join(m.get('detected_by') or [])
+    if m.get("detected_by_thorough"):
+        det = (det + "; " if det else "") + "thorough tier: " + ', '.join(m["detected_by_thorough"])
+    rows.append(f"| {os.path.basename(d)} | {title[:120]} | {det or '-'} | {first} |")
 table = ("<!-- SEED-TABLE-BEGIN -->\n| Change | What it does (first line of the agent's notes) | Detected by (quick tier, now) | "
          "When the change arrived |\n|---|---|---|---|\n" + "\n".join(rows) + "\n<!-- SEED-TABLE-END -->")
 p = os.path.join(HERE, "DESIGN.md")
